@@ -386,7 +386,10 @@ pub fn quoted_unit_boundaries(quoted: &str) -> Vec<usize> {
 // ---------------------------------------------------------------------------------------
 
 /// characters that have no role whatsoever outside a quoted string
-pub const ILLEGAL_OUTSIDE: &[char] = &['%', '{', '}', ';', '!', '?', '^', '~', '(', ')', '<', '>', '&', '\\'];
+/// (identifiers, bare values and white space are ASCII in the grammar of `vpl/parser.rs`:
+/// `is_ascii_alphanumeric`, `alphanumeric1`, `multispace`; letters, digits and spaces beyond
+/// ASCII can only occur inside quoted strings)
+pub const ILLEGAL_OUTSIDE: &[char] = &['%', '{', '}', ';', '!', '?', '^', '~', '(', ')', '<', '>', '&', '\\', 'ü', 'é', 'ß', 'Ω', '٣', '日', '€', '\u{a0}', '\u{200b}', '𝄞'];
 /// characters that certainly do not form an escape sequence after a backslash
 pub const NOT_AN_ESCAPE: &[char] = &['q', 'z', 'k', 'p', 'j', 'y', 'Q', 'Z', '%', ';'];
 
